@@ -408,6 +408,10 @@ func (e *Exec) symMath(name string, args []Value) Value {
 			}
 		}
 	}
+	if name == "Cbrt" && e.Cfg.Float != FloatFP {
+		// the real cube root exists and is unique for every real argument (no NaN obligation)
+		return e.cubeRoot(args[0].(*Term))
+	}
 	if e.mathHook != nil {
 		if v, ok := e.mathHook(e, name, args); ok {
 			return v
